@@ -82,6 +82,16 @@ def steer(spec, choices):
     r["styles"].pop("Display", None) if name != "Display" else None
     r["anims"] = [a for a in r["anims"] if a[0] not in (name, "Display")] + [(name, b, e, reveal)]
     r["begin"] = None
+  # value-equal animation steps on elements with different intervals (equal steps are equal objects for a cache keyed by value)
+  if spec["body"] is not None:
+    donors = [n for n in gen_model.walk(spec["body"]) if n["kind"] != "text" and n["anims"]]
+    if donors:
+      step = donors[0]["anims"][0]
+      for n in gen_model.walk(spec["body"]):
+        if n is not donors[0] and n["kind"] in ("div", "p", "span") and (n["begin"] is not None or n["end"] is not None) and \
+            not any(a[0] == step[0] for a in n["anims"]) and (step[0] != "Display" or n["kind"] != "span"):
+          n["anims"] = n["anims"] + [step]
+          break
   return spec
 
 
